@@ -401,8 +401,95 @@ fn explore_reshaped_gradients(opts: &Opts) -> Local {
     })
 }
 
+/// Forward passes through a layer (alone or inside a model, one or several, with inputs of different
+/// sizes) leave what `parameters()` shows exactly as it was: dimensions, values and flags.
+fn explore_forward_keeps_parameters(opts: &Opts) -> Local {
+    use crate::nn::{build_layers, Act, ActStore, CostK, LayerCfg};
+    use corgi::numbers::Float;
+    let var = opts.seed % 3;
+    let layers: Vec<(LayerCfg, Vec<Vec<usize>>)> = vec![
+        (LayerCfg::Dense { inp: 2, out: 3, act: Act::Sigmoid }, vec![vec![2], vec![1, 2], vec![3, 2], vec![2, 2, 2]]),
+        (LayerCfg::Dense { inp: 3, out: 1, act: Act::None }, vec![vec![3], vec![4, 3]]),
+        (LayerCfg::Conv { count: 2, depth: 1, fr: 2, fc: 2, sr: 1, sc: 1, act: Act::Relu }, vec![vec![1, 3, 3], vec![2, 1, 3, 3], vec![1, 4, 5], vec![1, 2, 2]]),
+        (LayerCfg::Conv { count: 3, depth: 2, fr: 1, fc: 2, sr: 1, sc: 2, act: Act::None }, vec![vec![2, 2, 4], vec![2, 2, 3, 6]]),
+    ];
+    let mut cases: Vec<(usize, Vec<usize>, bool)> = Vec::new();
+    for (li, (_, inputs)) in layers.iter().enumerate() {
+        // every ordered pair of inputs (the second call may see another size), alone and inside a model
+        for a in 0..inputs.len() {
+            for b in 0..inputs.len() {
+                for in_model in [false, true] {
+                    cases.push((li, vec![a, b], in_model));
+                }
+            }
+        }
+    }
+    par(opts, cases.len(), |i, l| {
+        let (li, seq, in_model) = &cases[i];
+        let (cfg, inputs) = &layers[*li];
+        let case = || format!("forward keeps parameters: {} inputs {:?} then {:?}{}", cfg.describe(), inputs[seq[0]], inputs[seq[1]], if *in_model { " inside a model" } else { "" });
+        if !l.want(&case) {
+            return;
+        }
+        l.states += 1;
+        l.transitions += 1;
+        l.validated += 1;
+        let r = run_catch(|| {
+            let mut msgs: Vec<String> = Vec::new();
+            let cfgs = vec![cfg.clone()];
+            let store = ActStore::new(&cfgs);
+            let mut ls = build_layers(&cfgs, &store, 9 + var);
+            let snap = |ls: &mut Vec<Box<dyn corgi::layer::Layer + '_>>| -> Vec<(Vec<usize>, Vec<Float>, bool, bool)> {
+                ls[0].parameters().into_iter().map(|p| (p.dimensions().to_vec(), p.values().to_vec(), crate::checks::c09::is_tracked(p), p.gradient().is_some())).collect()
+            };
+            let before = snap(&mut ls);
+            let older: Vec<Array> = ls[0].parameters().into_iter().map(|p| p.clone()).collect();
+            let mk = |d: &Vec<usize>, k: usize| -> Array { let n: usize = d.iter().product(); Array::from((d.clone(), (0..n).map(|j| (0.25 * ((j + k) % 5) as f64 - 0.5) as Float).collect::<Vec<Float>>())) };
+            if *in_model {
+                let gd = corgi::optimizer::gd::GradientDescent::new(0.5);
+                let cost = CostK::Mse.make();
+                let refs: Vec<&mut dyn corgi::layer::Layer> = ls.iter_mut().map(|b| &mut **b as &mut dyn corgi::layer::Layer).collect();
+                let mut model = corgi::model::Model::new(refs, &gd, &cost);
+                for (k, s) in seq.iter().enumerate() {
+                    let _ = model.forward(mk(&inputs[*s], k));
+                }
+            } else {
+                for (k, s) in seq.iter().enumerate() {
+                    let _ = ls[0].forward(mk(&inputs[*s], k));
+                }
+            }
+            let after = snap(&mut ls);
+            for (k, (b, a)) in before.iter().zip(&after).enumerate() {
+                if a.0 != b.0 || a.1.len() != b.1.len() || a.1.iter().zip(&b.1).any(|(x, y)| x.to_bits() != y.to_bits()) {
+                    msgs.push(format!("parameter {} was {:?} {} before the forward passes and is {:?} {} after them", k, b.0, fmt_vals(&b.1), a.0, fmt_vals(&a.1)));
+                }
+                if a.2 != b.2 || a.3 != b.3 {
+                    msgs.push(format!("parameter {}: tracking flag or gradient presence changed by forward passes", k));
+                }
+            }
+            for (k, (o, b)) in older.iter().zip(&before).enumerate() {
+                if o.dimensions() != &b.0[..] || o.values().iter().zip(&b.1).any(|(x, y)| x.to_bits() != y.to_bits()) {
+                    msgs.push(format!("the older handle of parameter {} changed", k));
+                }
+            }
+            msgs
+        });
+        match r {
+            Err(m) => l.violation("forward-keeps-parameters", case(), format!("panicked: {}", m)),
+            Ok(msgs) => {
+                l.outcome(digest_str(&format!("{}{}", case(), msgs.len())));
+                if !msgs.is_empty() {
+                    l.violation("forward-keeps-parameters", case(), msgs.join("; "));
+                }
+            }
+        }
+        l.sample(&case);
+    })
+}
+
 pub fn explore(opts: &Opts) -> Explored {
     let (mut local, stats) = run_all(opts, machines(opts));
+    local.merge(explore_forward_keeps_parameters(opts));
     local.merge(explore_model_spares(opts));
     local.merge(explore_reshaped_gradients(opts));
     Explored {
